@@ -11,11 +11,15 @@ Cases (JSON):
   {"kind": "session", "schemas": [COLS | {"copy_of": i}, ...], "ops": [OP, ...]}     (round 3: schema OBJECTS used, mutated in place, used again)
      OP  = ["validate", o, REC] | ["mutate", o, MUT] | ["frame", o] (DataFrame(rows=[], schema=<object o>) becomes the current frame) | ["append", REC]
      MUT = ["add", COL] | ["insert", COL] | ["pop", name] | ["settype", i, type] | ["setnull", i, bool] | ["rename", i, name] | ["reverse"]
+  COL  = [name, type, nullable] | [name, type, nullable, ATTRS]   ATTRS = {"default": vid (non-null), "aliases": [names], "other": [0..9]}
+         (round 4: attributes of a FlatColumn that validation must not read; "other" = description, length, precision, scale, null_count,
+          lowest_value, highest_value, origin, disposition, element_type); MUT also has ["setattrs", i, ATTRS]
   type = an OrsoTypes member name | "" (type argument omitted) | "0" (the integer 0 a restored untyped column carries)
   vid  = index into POOL (vid 0 is None).  Column names / keys come from NAMES.
 Observations: see observe()."""
 import collections
 import collections.abc
+import enum
 import datetime
 import decimal
 import importlib
@@ -34,7 +38,9 @@ LEVEL_TEXT = ("Machine-checked Coq theorems over an executable model of Relation
               "the rows are the initial rows followed by the accepted records' values in column order, each conforming. Sessions (round 3): schema objects that are "
               "used, changed in place (columns added / inserted / removed / retyped / renamed / reordered) and used again are part of the model; "
               "every validation and every append is proved to be decided by the object's columns as they are at the time of the call, "
-              "independently of all earlier uses. The type->class table "
+              "independently of all earlier uses. Columns carry further attributes (round 4: a declared default, aliases, descriptive "
+              "attributes); the model reads only name / type / nullable, and a null in a non-nullable column is proved to be rejected and named "
+              "whatever else the column declares. The type->class table "
               "and the issubclass matrix the model uses are regenerated from orso.types / the live classes on every run and pinned by theorems. "
               "The model is tied to schema.py / dataframe.py by running the real code on the complete type x value decision table and on random "
               "schemas x records x append histories and evaluating the model on the same inputs inside Coq; a literal property oracle on the "
@@ -59,7 +65,10 @@ RULE = ("validate stream: the complete decision table (every OrsoTypes member an
         "4..12 operations mixing validate, in-place changes of the object (columns.append / insert(0) / pop_column / .type / .nullable / .name "
         "assignment / reverse), making a DataFrame from the object and appending through it, records drawn against the current or the previous "
         "columns, plus a deterministic matrix (5 ways the object was used before x 12 changes x all probe records validated and appended); "
-        "non-trivial = at least one column check or one append happened; distinct by canonical JSON")
+        "round 4: 35% of random columns (and columns added in sessions) carry a default / aliases / descriptive attributes, a deterministic attribute "
+        "matrix (4 types x nullable x 14 attribute combinations x 6 record states, validated and appended) and zero-column schemas are enumerated in "
+        "both tiers, and the value pool has subclass instances (int/str/float/list/bytes/date subclasses, IntEnum), tz-aware datetime/time, "
+        "Decimal(1)/1.0/1/-0.0/inf, 2**53+1, ndarray, datetime64; non-trivial = at least one column check or one append happened; distinct by canonical JSON")
 TRUSTED = [
     "C05 model (coq/Model/C05.v): values are None | (exact class id, identity, serialisable flag); isinstance = regenerated issubclass matrix on type(v)",
     "modelled, not verified: Row.nbytes failing exactly on the pool values flagged unserialisable (ormsgpack), extract_dict_columns (compiled) = dict.get per field",
@@ -87,10 +96,44 @@ EXPECTED_CLASS = {
 }
 UNTYPED = ("", "0", "_MISSING_TYPE")
 
+
+# user-defined subclasses of the value classes (round 4)
+class _MyInt(int):
+    pass
+
+
+class _MyStr(str):
+    pass
+
+
+class _MyFloat(float):
+    pass
+
+
+class _MyList(list):
+    pass
+
+
+class _MyBytes(bytes):
+    pass
+
+
+class _MyDate(datetime.date):
+    pass
+
+
+class _Colour(enum.IntEnum):
+    RED = 1
+
+
 # classes of harness values that are not targets of ORSO_TO_PYTHON_MAP (module, qualified name)
 EXTRA_CLASSES = [
     ("builtins", "tuple"), ("builtins", "set"), ("builtins", "frozenset"), ("builtins", "bytearray"), ("builtins", "complex"),
     ("collections", "OrderedDict"), ("numpy", "int64"), ("numpy", "float64"), ("numpy", "bool_"), ("numpy", "str_"), ("numpy", "bytes_"),
+
+    # round 4 (appended, so earlier class ids are unchanged): user subclasses of value classes, an IntEnum, numpy containers
+    (__name__, "_MyInt"), (__name__, "_MyStr"), (__name__, "_MyFloat"), (__name__, "_MyList"), (__name__, "_MyBytes"), (__name__, "_MyDate"),
+    (__name__, "_Colour"), ("numpy", "ndarray"), ("numpy", "datetime64"),
 ]
 
 
@@ -166,6 +209,24 @@ def _mk_pool():
         ("list-of-2**70", [big], False),
         ("dict-int-key", {1: 2}, False),
         ("dict-of-2**70", {"k": big}, False),
+        # round 4 (appended, so earlier value ids are unchanged): subclass instances, equal-but-different values, tz-aware, big ints
+        ("int-subclass", _MyInt(5), True),
+        ("str-subclass", _MyStr("s"), True),
+        ("float-subclass", _MyFloat(2.0), True),
+        ("list-subclass", _MyList([1]), True),
+        ("bytes-subclass", _MyBytes(b"x"), True),
+        ("date-subclass", _MyDate(2020, 1, 1), True),
+        ("IntEnum-member", _Colour.RED, True),
+        ("datetime-tz-aware", datetime.datetime(2020, 1, 1, tzinfo=datetime.timezone.utc), True),
+        ("time-tz-aware", datetime.time(1, 2, tzinfo=datetime.timezone.utc), False),
+        ("Decimal-1", decimal.Decimal(1), True),
+        ("float-1.0", 1.0, True),
+        ("int-1", 1, True),
+        ("float-neg-zero", -0.0, True),
+        ("float-inf", float("inf"), True),
+        ("int-2**53+1", 2 ** 53 + 1, True),
+        ("ndarray", numpy.array([1, 2]), True),
+        ("np.datetime64", numpy.datetime64("2020-01-01"), True),
     ]
 
 
@@ -334,10 +395,39 @@ def _py_type(ty):
 def _mk_col(col):
     from orso.schema import FlatColumn
 
-    name, ty, nullable = col
-    if ty == "":
-        return FlatColumn(name=name, nullable=nullable)
-    return FlatColumn(name=name, type=_py_type(ty), nullable=nullable)
+    name, ty, nullable = col[0], col[1], col[2]
+    attrs = col[3] if len(col) > 3 else {}
+    kw = {"name": name, "nullable": nullable}
+    if ty != "":
+        kw["type"] = _py_type(ty)
+    c = None
+    if attrs.get("default") is not None:
+        try:  # the constructor parses a default with the column type; not every (type, value) pair survives that
+            c = FlatColumn(default=val(attrs["default"]), **kw)
+        except Exception:
+            c = None
+    if c is None:
+        c = FlatColumn(**kw)
+    _set_attrs(c, attrs)
+    return c
+
+
+OTHER_ATTRS = ["description", "length", "precision", "scale", "null_count", "lowest_value", "highest_value", "origin", "disposition", "element_type"]
+
+
+def _set_attrs(c, attrs):
+    """Assign the attributes validation must not read."""
+    from orso.schema import ColumnDisposition
+    from orso.types import OrsoTypes
+
+    if attrs.get("default") is not None and c.default is None:
+        c.default = val(attrs["default"])
+    if attrs.get("aliases"):
+        c.aliases = list(attrs["aliases"])
+    values = {"description": "a description", "length": 3, "precision": 5, "scale": 2, "null_count": 1, "lowest_value": 0, "highest_value": 9,
+              "origin": ["somewhere"], "disposition": list(ColumnDisposition)[0], "element_type": OrsoTypes.INTEGER}
+    for i in attrs.get("other", []):
+        setattr(c, OTHER_ATTRS[i], values[OTHER_ATTRS[i]])
 
 
 def _mk_schema(cols):
@@ -365,6 +455,9 @@ def apply_mut(cols, mut):
     i = mut[1]
     if not (0 <= i < len(cols)):
         return None
+    if k == "setattrs":
+        cols[i] = cols[i][:3] + [mut[2]]
+        return cols
     if k == "settype":
         cols[i][1] = mut[2]
     elif k == "setnull":
@@ -392,6 +485,10 @@ def _do_mut(schema, mut):
         schema.columns[mut[1]].nullable = mut[2]
     elif k == "rename":
         schema.columns[mut[1]].name = mut[2]
+    elif k == "setattrs":
+        col = schema.columns[mut[1]]
+        col.default = None
+        _set_attrs(col, mut[2])
     else:
         raise KeyError(k)
 
@@ -551,7 +648,8 @@ def _expected_validation(cols, rec):
     if extra:
         return ("excess", extra)
     missing, notnull, wrong = [], [], []
-    for name, ty, nullable in cols:
+    for col in cols:
+        name, ty, nullable = col[0], col[1], col[2]  # a default, aliases ... are not the property's business
         if name not in d:
             missing.append(name)
             continue
@@ -767,7 +865,7 @@ def _coq_type(ty):
 
 
 def _coq_schema(cols):
-    return L.lst("(mkcol %s %s %s)" % (L.N(KEY_ID[n]), _coq_type(t), L.boolean(nl)) for n, t, nl in cols)
+    return L.lst(_coq_col(c) for c in cols)
 
 
 def _coq_val(c):
@@ -813,8 +911,16 @@ def _coq_rows(rows):
 
 
 def _coq_col(col):
-    n, t, nl = col
-    return "(mkcol %s %s %s)" % (L.N(KEY_ID[n]), _coq_type(t), L.boolean(nl))
+    n, t, nl = col[0], col[1], col[2]
+    core = "(mkcol %s %s %s)" % (L.N(KEY_ID[n]), _coq_type(t), L.boolean(nl))
+    if len(col) > 3 and col[3]:
+        return "(fcore (mkfcol %s %s %s %s))" % ((core,) + _coq_attrs(col[3]))
+    return core
+
+
+def _coq_attrs(a):
+    return (L.opt(None if a.get("default") is None else "(pv %s)" % L.N(a["default"])),
+            L.lst(L.N(KEY_ID[x]) for x in a.get("aliases", [])), L.lst(L.N(i) for i in a.get("other", [])))
 
 
 def _coq_mut(m):
@@ -833,6 +939,8 @@ def _coq_mut(m):
         return "(MSetNullable %s %s)" % (L.nat(m[1]), L.boolean(m[2]))
     if k == "rename":
         return "(MRename %s %s)" % (L.nat(m[1]), L.N(KEY_ID[m[2]]))
+    if k == "setattrs":
+        return "(MSetAttrs %s %s %s %s)" % ((L.nat(m[1]),) + _coq_attrs(m[2]))
     raise KeyError(k)
 
 
@@ -954,6 +1062,17 @@ def corpus():
         ["validate", 0, R(("c0", 2), ("c1", 5))], ["validate", 1, R(("c0", 2), ("c1", 5))], ["mutate", 1, ["settype", 0, "VARCHAR"]],
         ["validate", 1, R(("c0", 2), ("c1", 5))], ["validate", 1, R(("c0", 5), ("c1", 5))], ["validate", 0, R(("c0", 5), ("c1", 5))],
         ["validate", 0, R(("c0", 2), ("c1", 5))]]}
+    # round 4: non-nullable columns that declare a default - a null is still rejected and named, nothing substitutes the default
+    dsch = [["c0", "INTEGER", False], ["c1", "VARCHAR", False, {"default": 5}], ["c2", "INTEGER", False, {"default": 3}],
+            ["c3", "VARCHAR", True, {"default": 6}]]
+    drecs = [R(("c0", 2), ("c1", 5), ("c2", 2), ("c3", 0)), R(("c0", 0), ("c1", 5), ("c2", 2), ("c3", 5)), R(("c0", 2), ("c1", 0), ("c2", 2), ("c3", 5)),
+             R(("c0", 2), ("c1", 5), ("c2", 0), ("c3", 5)), R(("c0", 0), ("c1", 0), ("c2", 0), ("c3", 0)), R(("c0", 2), ("c1", 5), ("c2", 3), ("c3", 5))]
+    for r in drecs:
+        yield {"kind": "validate", "schema": dsch, "rec": r}
+    yield {"kind": "hist", "init": {"how": "schema", "schema": dsch, "rows": []}, "entries": drecs}
+    yield {"kind": "session", "schemas": [[["c0", "INTEGER", False]]], "ops": [
+        ["validate", 0, R(("c0", 0))], ["mutate", 0, ["setattrs", 0, {"default": 2}]], ["validate", 0, R(("c0", 0))],
+        ["frame", 0], ["append", R(("c0", 0))], ["append", R(("c0", 2))]]}
     # several rules firing at once; excess checked first
     sch = [["c0", "INTEGER", False], ["c1", "VARCHAR", True], ["c2", "DATE", False], ["c3", "", False]]
     yield {"kind": "validate", "schema": sch, "rec": {"k": "dict", "items": [["c0", 0], ["c1", 2], ["c3", 0]]}}
@@ -1015,6 +1134,7 @@ def exhaustive(tier):
                                         yield {"kind": "validate", "schema": [["c0", t0, n0], ["c1", t1, n1]], "rec": {"k": "dict", "items": items}}
 
         yield from _session_matrix()
+        yield from _attribute_matrix()
 
     label = ("one-column schemas: every OrsoTypes member + both untyped forms (%d) x nullable/not x every pool value (%d, at least one per class of the "
              "regenerated class table, incl. subclass pairs)" % (len(types), n))
@@ -1022,6 +1142,10 @@ def exhaustive(tier):
               "validated} before x each in-place change {append/insert a column, pop first/last/absent, retype, untype, nullable flip, rename, reverse} "
               "x afterwards every probe record (conforming, each column missing / null / wrongly typed, conforming to the old columns) validated "
               "and appended through a frame made from the changed object")
+    label += ("; attribute matrix: {INTEGER, VARCHAR, DATE, untyped} x nullable/not x 14 combinations of attributes validation must ignore "
+              "(a default of the column's type / of another type / falsy, aliases naming an excess key / another column / the column itself, each "
+              "descriptive attribute, all together) x {column missing, explicit None, right value, wrong value, key given under the alias only, "
+              "column plus alias key} on a two-column schema; zero-column schema x {empty record, one key}")
     if tier == "thorough":
         label += "; two-column schemas over {INTEGER, DATE, untyped}^2 x nullable^2 x {missing,null,right,subclass,wrong}^2 x {no, one} excess key"
     return it(), label
@@ -1031,7 +1155,8 @@ def _probes(cols, old_cols):
     """Probe records against cols: conforming; per column missing / null / wrong; a record conforming to old_cols."""
     def conforming(cs):
         items, seen = [], set()
-        for n, t, _ in cs:
+        for col in cs:
+            n, t = col[0], col[1]
             if n not in seen:
                 seen.add(n)
                 items.append([n, _state_value(None, t, 2)])
@@ -1046,6 +1171,37 @@ def _probes(cols, old_cols):
         out.append(base[:j] + [[n, _state_value(None, t, 4)]] + base[j + 1:])
     out.append(conforming(old_cols))
     return [{"k": "dict", "items": it} for it in out]
+
+
+def _attribute_matrix():
+    """Columns carrying attributes validation must not read x every state of that column in the record."""
+    for ty in ("INTEGER", "VARCHAR", "DATE", ""):
+        right = _state_value(None, ty, 2)
+        other_ty = "VARCHAR" if ty != "VARCHAR" else "INTEGER"
+        combos = [
+            {"default": right}, {"default": _state_value(None, other_ty, 2)}, {"default": 3 if ty != "VARCHAR" else 6},
+            {"aliases": ["x0"]}, {"aliases": ["c1"]}, {"aliases": ["c0"]}, {"aliases": ["x0", "x1"], "default": right},
+        ] + [{"other": [i]} for i in (0, 1, 4, 5, 8, 9)] + [{"default": right, "aliases": ["x0"], "other": list(range(len(OTHER_ATTRS)))}]
+        for nullable in (True, False):
+            for attrs in combos:
+                cols = [["c0", ty, nullable, attrs], ["c1", "VARCHAR", True]]
+                alias = (attrs.get("aliases") or ["x0"])[0]
+                records = [
+                    [["c1", 5]],                                  # column missing (its default must not stand in)
+                    [["c0", 0], ["c1", 5]],                       # explicit None
+                    [["c0", right], ["c1", 5]],                   # right value
+                    [["c0", _state_value(None, ty, 4)], ["c1", 5]],   # wrong value (untyped: anything goes)
+                    [[alias, right], ["c1", 5]] if alias != "c1" else [["c1", 5]],   # given under the alias only
+                    [["c0", right], ["c1", 5]] + ([[alias, right]] if alias not in ("c0", "c1") else []),   # column and alias key
+                ]
+                for items in records:
+                    yield {"kind": "validate", "schema": cols, "rec": {"k": "dict", "items": items}}
+                yield {"kind": "hist", "init": {"how": "schema", "schema": cols, "rows": []},
+                       "entries": [{"k": "dict", "items": it} for it in records]}
+    for items in ([], [["c0", 2]]):
+        yield {"kind": "validate", "schema": [], "rec": {"k": "dict", "items": items}}
+    yield {"kind": "hist", "init": {"how": "schema", "schema": [], "rows": []},
+           "entries": [{"k": "dict", "items": []}, {"k": "dict", "items": [["c0", 2]]}, {"k": "ordereddict", "items": []}]}
 
 
 def _session_matrix():
@@ -1105,8 +1261,24 @@ def _rand_schema(rng):
             ty = rng.choice(UNTYPED)
         else:
             ty = "NULL"
-        cols.append([nm, ty, rng.random() < 0.5])
+        col = [nm, ty, rng.random() < 0.5]
+        if rng.random() < 0.35:
+            col.append(_rand_attrs(rng, ty))
+        cols.append(col)
     return cols
+
+
+def _rand_attrs(rng, ty):
+    """Attributes validation must ignore: a non-null default (usually of the column's type), aliases (other columns' names and names
+    that occur as excess keys), descriptive attributes."""
+    a = {}
+    if rng.random() < 0.7:
+        a["default"] = _state_value(rng, ty, rng.choice([2, 2, 3])) or 2
+    if rng.random() < 0.35:
+        a["aliases"] = rng.sample(NAMES, rng.randint(1, 2))
+    if rng.random() < 0.4:
+        a["other"] = sorted(rng.sample(range(len(OTHER_ATTRS)), rng.randint(1, 3)))
+    return a or {"default": 2}
 
 
 def _rand_record(rng, cols, p_good, names=None, in_hist=True):
@@ -1114,7 +1286,8 @@ def _rand_record(rng, cols, p_good, names=None, in_hist=True):
     items = []
     seen = set()
     good = rng.random() < p_good
-    for name, ty, nullable in (cols if cols is not None else [[n, "", True] for n in names]):
+    for col in (cols if cols is not None else [[n, "", True] for n in names]):
+        name, ty, nullable = col[0], col[1], col[2]
         if name in seen:
             continue
         seen.add(name)
@@ -1157,11 +1330,11 @@ def _rand_hist(rng):
     if how in ("schema", "schema-rows"):
         cols = _rand_schema(rng)
         if rng.random() < 0.6:
-            cols = [[n, ("INTEGER" if t == "NULL" else t), nl] for n, t, nl in cols]
+            cols = [[c[0], ("INTEGER" if c[1] == "NULL" else c[1])] + c[2:] for c in cols]
         rows = []
         if how == "schema-rows":
             for _ in range(rng.randint(1, 3)):
-                rows.append([_state_value(rng, t, rng.choice([1, 2, 2, 3])) or 0 for _, t, _ in cols])
+                rows.append([_state_value(rng, c[1], rng.choice([1, 2, 2, 3])) or 0 for c in cols])
         init = {"how": "schema", "schema": cols, "rows": rows}
         entries = [_rand_record(rng, cols, 0.6) for _ in range(n_entries)]
     elif how == "names":
@@ -1184,7 +1357,10 @@ def _rand_col(rng, used):
     typed = [t for t in _type_names() if t in EXPECTED_CLASS]
     r = rng.random()
     ty = rng.choice(typed) if r < 0.85 else rng.choice(UNTYPED)
-    return [rng.choice(free), ty, rng.random() < 0.4]
+    col = [rng.choice(free), ty, rng.random() < 0.4]
+    if rng.random() < 0.3:
+        col.append(_rand_attrs(rng, ty))
+    return col
 
 
 def _rand_mut(rng, cols):
@@ -1192,7 +1368,7 @@ def _rand_mut(rng, cols):
     typed = [t for t in _type_names() if t in EXPECTED_CLASS]
     kinds = ["add", "add", "insert", "reverse"]
     if cols:
-        kinds += ["pop", "pop", "settype", "settype", "setnull", "rename"]
+        kinds += ["pop", "pop", "settype", "settype", "setnull", "rename", "setattrs"]
     k = rng.choice(kinds)
     if k in ("add", "insert"):
         return [k, _rand_col(rng, used)]
@@ -1205,6 +1381,8 @@ def _rand_mut(rng, cols):
         return ["settype", i, rng.choice(typed) if rng.random() < 0.8 else rng.choice(UNTYPED)]
     if k == "setnull":
         return ["setnull", i, not cols[i][2]]
+    if k == "setattrs":
+        return ["setattrs", i, _rand_attrs(rng, cols[i][1])]
     free = [n for n in NAMES[:8] if n not in used] or NAMES[:8]
     return ["rename", i, rng.choice(free)]
 
@@ -1295,6 +1473,11 @@ def shrink(case):
         for i in range(len(cols)):
             if len(cols) > 1:
                 yield dict(case, schema=cols[:i] + cols[i + 1:])
+        for i, c in enumerate(cols):
+            if len(c) > 3:
+                yield dict(case, schema=cols[:i] + [c[:3]] + cols[i + 1:])
+                for k in c[3]:
+                    yield dict(case, schema=cols[:i] + [c[:3] + [{x: y for x, y in c[3].items() if x != k}]] + cols[i + 1:])
         for i in range(len(rec["items"])):
             yield dict(case, rec=dict(rec, items=rec["items"][:i] + rec["items"][i + 1:]))
         return
@@ -1333,8 +1516,26 @@ def nontrivial_key(case, obs):
     return repr((case["init"], case["entries"]))
 
 
+def _case_columns(case):
+    if case["kind"] == "validate":
+        return list(case["schema"])
+    if case["kind"] == "hist":
+        return list(case["init"].get("schema", []))
+    out = [c for sc in case["schemas"] if isinstance(sc, list) for c in sc]
+    for op in case["ops"]:
+        if op[0] == "mutate" and op[2][0] in ("add", "insert"):
+            out.append(op[2][1])
+        elif op[0] == "mutate" and op[2][0] == "setattrs":
+            out.append(["", "", True, op[2][2]])
+    return out
+
+
 def classify(case, obs):
     yield case["kind"]
+    for c in _case_columns(case):
+        if len(c) > 3 and c[3]:
+            for k in sorted(c[3]):
+                yield "column-attribute:" + k + ("-on-non-nullable" if not c[2] else "")
     if case["kind"] == "session":
         yield "session-objects=%d" % len(case["schemas"])
         used = set()
